@@ -111,16 +111,23 @@ def audit(prop, theorems):
     return ok, details, failures, out
 
 
+LAST_HARNESS_STDERR = ""
+
+
 def run_stream(harness, prop, tier, seed, extra_args=()):
-    """harness gen -> cases (with impl results); driver -> model answers. Returns joined list."""
+    """harness gen -> cases (with impl results); driver -> model answers. Returns joined list.
+    The harness' stderr (race detector reports of a -race build) is kept in LAST_HARNESS_STDERR."""
+    global LAST_HARNESS_STDERR
     BUILD.mkdir(exist_ok=True)
     tag = f"{prop}_{tier}_{seed}_{os.getpid()}"
     cases = BUILD / f"cases_{tag}.jsonl"
     model = BUILD / f"model_{tag}.jsonl"
-    r = run([str(harness), "gen", "-prop", prop, "-tier", tier, "-seed", str(seed), "-out", str(cases)] + list(extra_args),
-            timeout=7200)
-    if r.returncode != 0:
-        raise RuntimeError("harness gen failed: " + r.stdout[-4000:])
+    r = subprocess.run([str(harness), "gen", "-prop", prop, "-tier", tier, "-seed", str(seed), "-out", str(cases)] + list(extra_args),
+                       stdout=subprocess.PIPE, stderr=subprocess.PIPE, text=True, timeout=7200,
+                       env=dict(os.environ, GORACE="halt_on_error=0"))
+    LAST_HARNESS_STDERR = r.stderr or ""
+    if r.returncode != 0 and "DATA RACE" not in LAST_HARNESS_STDERR:
+        raise RuntimeError("harness gen failed: " + (r.stdout + r.stderr)[-4000:])
     driver = LEAN / ".lake" / "build" / "bin" / "gonnx_driver"
     with open(cases) as fi, open(model, "w") as fo:
         rd = subprocess.run([str(driver)], stdin=fi, stdout=fo, stderr=subprocess.PIPE, text=True, timeout=7200)
